@@ -22,17 +22,20 @@ RULE = ("(rt) fields on 1-4-d meshes (cell counts incl. 1; renamed dims incl. na
         "labels default/custom/absent (vector) or present (scalar), through Field.to_xarray (name/unit arguments) and Field.from_xarray on the real DataArray "
         "with attrs complete, EVERY subset of cell/pmin/pmax removed, tolerance_factor / one coordinate's units / EVERY coordinate's "
         "units / the label coordinate / everything removed, ONE coordinate's units replaced by '' / ' ' / '0' / 'None' / 'False' / 'µm', "
-        "additional attributes on the array and on every coordinate; a long-axis stream (one axis of 60-250 cells against the model; "
-        "1000-6000 cells oracle-only); 40 % of these after a HISTORY of 1-3 in-place calls on field.mesh (translate; scale by scalar / "
+        "additional attributes on the array and on every coordinate; a long-axis stream (one axis of 60-250 and of 1000-6000 cells, all "
+        "compared with the model: the driver runs linear-time forms proved equal to it); 40 % of these after a HISTORY of 1-3 in-place calls on field.mesh (translate; scale by scalar / "
         "per-axis / negative factors about pmin, pmax or the default centre; calls the code must refuse: wrong length, factor 0) preceded by "
         "one export: the model replays the history (T.stepM) from the state before it and its export is compared with the real one; "
         "exact regime (dyadic geometry: equality with the rational model) and tolerance regime "
         "(scales 1e-12..1e6, offsets up to 1000 cells: 16u bound); (uneven) one coordinate shifted by 0.3/0.05/0.01 cell (clear "
-        "reject side of the relative spacing test rtol=1e-5) or 1e-8/1e-9 cell (clear accept side) at ALL scales 1e-12..1e6 and offsets up to 1e7 cells; (hand) hand-built DataArrays "
+        "reject side of the relative spacing test rtol=1e-5), by 2e-5 / 5e-6 cell (a factor 2 above / below the threshold: model's rational "
+        "inequality vs np.allclose) or 1e-8/1e-9 cell (clear accept side) at ALL scales 1e-12..1e6 and offsets up to 1e7 cells; (hand) hand-built 1-4-d DataArrays "
         "(arange/int coordinates, missing coordinates, consistent or inconsistent attrs given as lists or numpy arrays, single-cell axes "
         "with/without cell, evenly spaced DESCENDING coordinates, labels that are attribute names of Field; units on some / all "
         "coordinates incl. '' on exactly one and odd strings; regions with a corner exactly at 0 on every axis and pmin / pmax "
-        "attributes equal to 0 that contradict the coordinates: a present attribute counts, falsy or not); (bad) missing/zero/negative/float/"
+        "attributes equal to 0 that contradict the coordinates: a present attribute counts, falsy or not; complete attributes that "
+        "contradict the DATA shape on one axis - one entry where they say several cells: numpy broadcasts it; single-cell axes on any "
+        "subset of the axes); (uneven-long) the displaced coordinate far down an axis of 100-1500 cells; (bad) missing/zero/negative/float/"
         "numpy nvdim, vector without vdims axis, non-DataArray argument, wrong/scaled cell, shifted pmax, swapped corners, "
         "duplicate labels, a label naming a method/property of Field, nvdim != axis length, transposed axes, dropped coordinate, dimension called 'vdims', non-string "
         "name/unit arguments, a cell size that rounds to zero cells >= 1e15 cells from the origin. Oracle on the real code: coordinates == cell centres (exact Fractions) of the mesh as it is at export time, inside their own cell, with "
@@ -52,23 +55,26 @@ ASSUMPTIONS = ["exact regime: dyadic corners and cells, every binary64 operation
                "names of Field (hypothesis hdef of import_wf; asserted on the real class when the module is loaded)",
                "in-place histories consist of Mesh.translate / Mesh.scale on a mesh without subregions (a quarter turn of field.mesh in "
                "place changes the cell counts under the field's array and is not a state the property speaks about)",
-               "cases whose largest spacing deviation is within a factor 3.3 of the spacing threshold 1e-5*|mean| are not compared "
-               "(incidental threshold)"]
-UNPROVED = ["a dimension called 'units' is generated by default (finding D119, fixed in /repo 5d7e5dea): from_xarray reads "
-            "`xa[i].units`, which xarray resolves to the coordinate of that name instead of the attribute, so the import of the real "
-            "export raises TypeError (finding D117, reported); the model, which addresses attributes by key, accepts it",
-            "axes of more than 300 cells are judged by the oracle on the real code only (exact cell centres, round trip, rebuild): "
-            "the Lean model's list-based arrays are too slow there; the theorems themselves hold for every size",
-            "units that are not strings on a hand-built DataArray (None, numbers) are outside the model (Coord.units : Option String) "
+               "cases whose largest spacing deviation is within 10 % of the spacing threshold 1e-5*|mean| are not compared "
+               "(the code's rtol is a binary64 number and rtol*|mean| is rounded)"]
+UNPROVED = ["units that are not strings on a hand-built DataArray (None, numbers) are outside the model (Coord.units : Option String) "
             "and outside the property; not generated",
             "labels of a vector field WITHOUT labels (vdims=[]) and of a scalar field WITH a label are not preserved: the importer "
             "assigns the constructor defaults (xa_roundtrip_unlabelled / xa_roundtrip_labels_iff prove exactly this of the model; finding D81)",
-            "unit, validity mask, bc, subregions and vdim_mapping are not restored by from_xarray (xa_not_restored; not in the property's list)",
+            "unit, validity mask, bc, subregions and vdim_mapping are not restored by from_xarray (xa_not_restored, export_import_export_idem: "
+            "only the attribute units differs after export-import-export; not in the property's list)",
             "binary64 rounding of linspace / diff / mean / c/2 is not modelled: theorems are over Q, the tolerance regime of the "
-            "correspondence run (16u bound) stands in; the spacing threshold itself (rtol 1e-5) is exact in the model, cases within a "
-            "factor 3.3 of it are not compared",
-            "hand-built DataArrays with complete attributes: the coordinate values are never used (attrs_override_coordinates), so "
-            "descending coordinates are accepted without reordering the data - an observation about the code, outside the property's statement"]
+            "correspondence run (16u bound) stands in; the spacing threshold is exact in the model (rtol = 1/100000, spacing_test_spec) "
+            "while the code's rtol is the binary64 number nearest to 1e-5 and rtol*|mean| is rounded: cases within 10 % of the threshold "
+            "are not compared (a factor 2 on either side is: deltas 1/50000 and 1/200000 of a cell)",
+            "import_geometry_ok_iff states the acceptance of Region / Mesh with C01's rational tolerance band and the 0.1 % divisibility "
+            "rule; in binary64 these two thresholds are incidental and the generators stay clear of them",
+            "values of an accepted DataArray whose data do NOT have the mesh's shape (attributes that contradict the data, accepted when "
+            "numpy can broadcast, e.g. one value into n cells): acceptance is proved exactly (import_ok_iff, data_fits_iff), the broadcast "
+            "values themselves are compared by the correspondence run only (import_result_formula covers data of the mesh's shape)",
+            "hand-built DataArrays with complete attributes: the coordinate values are never used (attrs_override_coordinates, "
+            "import_geometry_ok_iff), so descending or contradicting coordinates are accepted without reordering the data - an "
+            "observation about the code, outside the property's statement"]
 BUDGET = {"quick": 85, "thorough": 800}
 
 U = Fraction(1, 2 ** 53)
@@ -330,8 +336,8 @@ def _streams(rng, tier):
     q = tier == "quick"
 
     def rt(regime, cnt, long=None):
-        """long: one axis of hundreds of cells (model and code compared) or thousands (the Lean model's lists are too slow there:
-        these cases carry nomodel=True and are judged by the oracle on the real code alone)"""
+        """long: one axis of hundreds or thousands of cells; model and code are compared at every length (the driver runs the
+        linear-time forms of the spacing test and of the cell inference, proved equal to the pointwise model: Props/C17.fast_import_eq)"""
         for _ in range(cnt):
             size = rng.choice(long) if long else False
             g = gen_geom(rng, tier, regime, ndim=(rng.choice([1, 1, 2, 3]) if long else None), long=size)
@@ -340,15 +346,16 @@ def _streams(rng, tier):
                 pre = [gen_meshop(rng, g, regime) for _ in range(rng.choice([1, 1, 2, 3]))]
             c = dict(kind="rt", geom=g, fs=gen_fieldspec(rng, g), sub=rng.getrandbits(32), pre=pre,
                      name=rng.choice([None, None, "m", "field_1", ""]), unit=rng.choice([None, None, "T", ""]))
-            if long and max(g["n"]) > 300:
-                c["nomodel"] = True
             yield c
 
     def uneven(cnt):
         for _ in range(cnt):
             regime = rng.choice(["exact", "tol", "tol"])
-            g = gen_geom(rng, tier, regime, ndim=rng.choice([1, 2, 3]), force3=True, far=True)
-            delta = rng.choice(["3/10", "1/20", "1/100", "1/100000000", "1/1000000000"])
+            long = rng.choice([False] * 24 + [400, 1500])     # the displaced coordinate may sit far down a long axis
+            g = gen_geom(rng, tier, regime, ndim=rng.choice([1, 2, 3]), force3=True, far=True, long=long)
+            # 1/50000 and 1/200000 of a cell: a factor 2 above / below the threshold 1e-5 (model vs code: the rational
+            # inequality of spacing_test_spec against np.allclose; binary64 noise is ~1e-10 of the threshold)
+            delta = rng.choice(["3/10", "1/20", "1/100", "1/50000", "1/50000", "1/200000", "1/200000", "1/100000000", "1/1000000000"])
             yield dict(kind="uneven", geom=g, fs=gen_fieldspec(rng, g, False), sub=rng.getrandbits(32), delta=delta,
                        erase=[k for k in GEOM_ATTRS if rng.random() < 0.5])
 
@@ -371,8 +378,8 @@ def _streams(rng, tier):
     yield bad(540 if q else 4000)
     yield rt("exact", 6 if q else 40, long=[60, 120, 250])
     yield rt("tol", 6 if q else 40, long=[60, 120, 250])
-    yield rt("exact", 8 if q else 50, long=[1000, 2500, 4000, 6000])
-    yield rt("tol", 8 if q else 50, long=[1000, 2500, 4000, 6000])
+    yield rt("exact", 5 if q else 50, long=[1000, 2500, 4000, 6000])
+    yield rt("tol", 5 if q else 50, long=[1000, 2500, 4000, 6000])
 
 
 # --------------------------------------------------------------------------- running the real code
@@ -659,11 +666,13 @@ def run_uneven(case, obs, fail):
     rel, ratio = unevenness(xa2[d].values)
     obs["ratio"] = float(ratio)
     g, err = rec_import(obs, "uneven", xa2)
-    near = Fraction(3, 10) <= ratio <= Fraction(33, 10)
+    near = Fraction(9, 10) <= ratio <= Fraction(11, 10)
     obs["near"] = near
     if not near and rel > Fraction(1, 1000) and g is not None:
         fail(f"unevenly spaced coordinates accepted: {d} = {xa2[d].values.tolist()} (relative unevenness {float(rel):.3g}, "
              f"deviation/threshold {float(ratio):.3g}); mesh built: pmin={g.mesh.region.pmin.tolist()} n={g.mesh.n.tolist()}")
+    if max(geom["n"]) >= 50:
+        obs["tags"].append("uneven-long-axis")
     obs["tags"] += ["delta:" + case["delta"], f"regime:{geom['regime']}", "near-threshold-skipped" if near else ("rejected" if g is None else "accepted"),
                     "rel>1e-3" if rel > Fraction(1, 1000) else "rel<=1e-3"]
     obs["nontrivial"] = not near
@@ -671,9 +680,15 @@ def run_uneven(case, obs, fail):
 
 def run_hand(case, obs, fail):
     rng = random.Random(case["sub"])
+    rng2 = random.Random(case["sub"] ^ 0xB0CA)      # decisions added in round 2 (own stream: older cases replay unchanged)
     ndim = rng.choice([1, 2, 2, 3])
+    if rng2.random() < 0.2:
+        ndim = 4
     nv = rng.choice([1, 1, 2, 3])
     n = [rng.choice([1, 2, 3, 4, 5]) if rng.random() < 0.15 else rng.choice([2, 3, 4, 5]) for _ in range(ndim)]
+    if rng2.random() < 0.1:             # single-cell axes (they REQUIRE the cell attribute), also the last one of a scalar array
+        for a in rng2.sample(range(ndim), rng2.randint(1, ndim)):
+            n[a] = 1
     dims = rng.sample(DIMS + XR_DIMS, ndim)
     h = [Fraction(rng.choice([1, 1, 3, 5]), 2 ** rng.randint(0, 3)) for _ in range(ndim)]
     v0 = [Fraction(rng.randint(-40, 40), 2 ** rng.randint(0, 2)) for _ in range(ndim)]
@@ -689,17 +704,20 @@ def run_hand(case, obs, fail):
         v0 = [(x / 2 if rng.random() < 0.5 else -(k - 1) * x - x / 2) for x, k in zip(h, n)]
     coords = {}
     dropped = []
+    bax = rng2.randrange(ndim) if rng2.random() < 0.12 and not zero else None
+    if bax is not None:
+        n[bax] = max(2, n[bax])         # the attributes will say n[bax] cells, the data and the coordinate have ONE entry there
     for a, d in enumerate(dims):
-        if rng.random() < 0.12:
+        if a != bax and rng.random() < 0.12:
             dropped.append(a)           # no coordinate: xarray indexes 0, 1, 2, …
             v0[a], h[a] = Fraction(0), Fraction(1)
             continue
-        vals = [v0[a] + j * h[a] for j in range(n[a])]
+        vals = [v0[a] + j * h[a] for j in range(1 if a == bax else n[a])]
         coords[d] = np.array([int(v) for v in vals]) if integer else np.array([float(v) for v in vals])
     desc = [d for d in coords if rng.random() < 0.06]    # evenly spaced but DESCENDING coordinates (model vs code only):
     for d in desc:                                       # refused without cell, taken unreordered with complete attrs
         coords[d] = coords[d][::-1].copy()
-    shape = tuple(n) + ((nv,) if nv > 1 else ())
+    shape = tuple(1 if a == bax else k for a, k in enumerate(n)) + ((nv,) if nv > 1 else ())
     data = np.array([rng.randint(-50, 50) / 2 for _ in range(int(np.prod(shape)))]).reshape(shape)
     xdims = dims + (["vdims"] if nv > 1 else [])
     labels = None
@@ -712,6 +730,13 @@ def run_hand(case, obs, fail):
     lo = [v0[a] - h[a] / 2 for a in range(ndim)]
     hi = [v0[a] + (n[a] - 1) * h[a] + h[a] / 2 for a in range(ndim)]
     mode = rng.choice(["none", "none", "consistent", "cell", "p", "inconsistent", "zero-corner"])
+    if bax is not None:
+        # complete attributes that contradict the DATA shape on one axis (one entry, the attributes say several cells): numpy
+        # broadcasts the entry over the axis (np.full), model vs code only (import_ok_iff / import_values_formula)
+        mode = "broadcast"
+        attrs["cell"] = [float(x) for x in h]
+        attrs["pmin"] = [float(x) for x in lo]
+        attrs["pmax"] = [float(x) for x in hi]
     if mode in ("consistent", "cell"):
         attrs["cell"] = [float(x) for x in h]
     if mode in ("consistent", "p"):
@@ -771,7 +796,7 @@ def run_hand(case, obs, fail):
     ug = [xa[d].attrs.get("units") for d in dims if d in xa.coords]
     obs["tags"] += ["coord-units:" + ("none" if all(u is None for u in ug) else "partial" if any(u is None for u in ug) else units_tag(ug)[6:]),
                     "zero-corner" if zero else "corners-nonzero"]
-    obs["tags"] += ["attrs:" + mode, "int-coords" if integer else "float-coords", "dropped-coord" if dropped else "all-coords",
+    obs["tags"] += ["attrs:" + mode, f"hand-ndim:{ndim}", "int-coords" if integer else "float-coords", "dropped-coord" if dropped else "all-coords",
                     "single-cell-axis" if single else "n>=2", "accepted" if g is not None else "rejected"]
     obs["nontrivial"] = g is not None and int(np.prod(n)) >= 2
 
